@@ -34,4 +34,23 @@ PROPS = {
                          'order and known classes: Model/TypesSpec.v; hook verif_equal_up_to_constness'],
         'assumptions': ['behaviour of types.rs depends on widths only through ==, max and None-ness (so 7 widths represent all)'],
     },
+    'C14': {
+        'coq': 'Props/C14.v',
+        'families': [
+            {'name': 'lex',
+             'args': {'quick': ['--exhaustive', 5, '--random', 4000, '--lexemes', 1500, '--malformed', 1500],
+                      'thorough': ['--exhaustive', 6, '--random', 200000, '--lexemes', 50000, '--malformed', 50000]},
+             'shards': {'quick': 16, 'thorough': 16},
+             'driver_args': []},
+        ],
+        'exhaustive': {'quick': True, 'thorough': True},
+        'rule': 'every string of length <= 5 (quick) / <= 6 (thorough) over the 14-character alphabet p O # @ " \' / * . 0 e _ LF U+00B5 '
+                '(exhaustive), random concatenations of lexically critical fragments (NUL, BOM, 4-byte scalars, emoji, ZWJ, Unicode '
+                'blanks, quotes, prefixes), generated lexeme sequences in two layouts, and sequences with one malformed lexeme; '
+                'non-trivial = at least two characters, counted once per distinct text (hash)',
+        'trusted_base': ['model Model/Lexer.v of oq3_lexer/src/{lib,cursor}.rs and Model/Lexed.v of lexed_str.rs (hand-written)',
+                         'Unicode class bits (XID_Start, XID_Continue, Emoji) computed by the harness with the unicode-xid / unicode-properties versions of /repo/Cargo.lock; theorems hold for any assignment',
+                         'generated kind table coq/gen/Kinds.v (tools/gen_tables.py, regenerated from syntax_kind_enum.rs every run)'],
+        'assumptions': ['inputs shorter than 2^32 bytes (u32 offsets); fewer than 2^31 line breaks inside one string literal (i32 counter)'],
+    },
 }
